@@ -1,0 +1,19 @@
+//go:build verif
+// +build verif
+
+package rawmessagesfilter
+
+import "sync"
+
+var verifPanicObservers sync.Map // *RawMessageFilter -> func(interface{})
+
+// VerifObserveRecoveredPanics registers an observer for panics that processConsensusMessage recovers from.
+func (f *RawMessageFilter) VerifObserveRecoveredPanics(fn func(r interface{})) {
+	verifPanicObservers.Store(f, fn)
+}
+
+func verifRecovered(f *RawMessageFilter, r interface{}) {
+	if fn, ok := verifPanicObservers.Load(f); ok {
+		fn.(func(interface{}))(r)
+	}
+}
